@@ -1,5 +1,6 @@
 import copy
 import importlib
+import json
 import logging
 import os
 import os.path
@@ -96,6 +97,19 @@ def redirect_exception(old_exc, new_exc):
         return inner_wrapper
 
     return wrapper
+
+
+def dump_json_atomically(obj, path):
+    """Write `obj` as JSON to `path` so that `path` always holds a complete document.
+
+    The document is written to a temporary file next to `path` which then replaces
+    `path`. If the process is interrupted or killed, or the disk is full, `path` keeps
+    its previous contents instead of being left empty or truncated.
+    """
+    tmp_path = "{}.tmp".format(path)
+    with open(tmp_path, "w") as tmp_file:
+        json.dump(obj, tmp_file)
+    os.replace(tmp_path, path)
 
 
 def ensure_trailing_newline(s):
